@@ -84,66 +84,97 @@ theorem lib_follows_declared (db : DB) (tip : Blk) (h : (db.blockInChain tip.ref
 /-! ### the head is actually followed (the direction a stream that never moves would fail) -/
 
 /-- **a fresh block that links back to the LIB through blocks already received, is not below the LIB and triggers,
-    becomes the tip**: `ids` is any parent-linked path of stored blocks resting on the LIB whose top is the block's
-    parent (the empty path when the parent is the LIB itself). With `tip_rule` this makes the first sentence of C03 an
-    equivalence stated on the block tree, not on what the walk happened to return: `ReversibleSegment` is complete
-    (`Lemmas/Complete.reversibleSegment_complete`). -/
+    becomes the tip — and the LIB moves to its ancestor at the LIB number it declares, when that ancestor is one of
+    those blocks**: `ids` is any parent-linked path of stored blocks resting on the LIB whose top is the block's parent
+    (the empty path when the parent is the LIB itself). With `tip_rule` and `lib_follows_declared` this makes the first
+    two sentences of C03 statements about the block tree, not about what the walks happened to return:
+    `ReversibleSegment`, `BlockInCurrentChain` and `HasNewIrreversibleSegment` are complete on such paths
+    (`Lemmas/Complete`). -/
+theorem linked_block_step (cfg : Config) (hnew : cfg.matches .new = true) (hundo : cfg.matches .undo = true)
+    (hirr : cfg.matches .irreversible = true) (s : FState) (P : List Id) (b : Blk)
+    (hI : Inv s P) (hok : Props.C01.StepOK s b) (hinit : InitNumOK s.db)
+    (hfresh : s.db.find b.id = none) (hnb : ¬ (b.num < s.db.libRef.num ∧ s.lastSent.isSome = true))
+    (ids : List Id) (hp : IsPath s.db s.db.libRef.id ids) (hn : s.db.libRef.id ∉ ids)
+    (hpar : b.parent = topOf s.db.libRef.id ids) (htr : triggers cfg s b = true) :
+    (∃ l, (processBlock cfg s b none).1.lastSent = some l ∧ l.ref = b.ref) ∧
+    (∀ x ex, x ∈ ids → s.db.find x = some ex → ex.blk.num = b.lib →
+      (processBlock cfg s b none).1.db.libRef = ⟨x, b.lib⟩) := by
+  obtain ⟨_, _, _, _, _, _, hmv⟩ :=
+    processBlock_step cfg hnew hundo hirr s P b hI hok.1 hok.2.1 hok.2.2.1 hok.2.2.2.1 hok.2.2.2.2
+  have hb := hok.2.2.1
+  have hB := hok.2.2.2.1
+  have hself := find_append_self s.db b hfresh
+  -- the new block is not the LIB: it would sit at the LIB's height while resting on a descendant of the LIB
+  have hbl : b.id ≠ s.db.libRef.id := by
+    intro hlb
+    have h3 := hB.2.2.2 hlb
+    rcases List.eq_nil_or_concat ids with hnil | ⟨ids0, x, hx⟩
+    · subst hnil
+      have := hB.2.2.1 (by simpa using hpar)
+      omega
+    · rw [List.concat_eq_append] at hx
+      subst hx
+      simp only [topOf_append_singleton] at hpar
+      cases hfx : s.db.find x with
+      | none =>
+        have := isPath_present s.db _ _ hp x (by simp)
+        rw [hfx] at this; cases this
+      | some ep =>
+        have h1 := heights_path s.db hI.heights _ s.db.libRef.num _ hp hI.heights.2.1 x (by simp) ep hfx
+        have h2 := hB.1 ep (find_mem _ _ _ hfx) (by rw [hpar, find_id _ _ _ hfx])
+        omega
+  have hpath : IsPath (appendBlk s.db b) (appendBlk s.db b).libRef.id (ids ++ [b.id]) := by
+    show IsPath (appendBlk s.db b) s.db.libRef.id (ids ++ [b.id])
+    rw [isPath_append]
+    refine ⟨isPath_append_entry s.db b _ _ hp hfresh, ?_⟩
+    simp only [IsPath, and_true]
+    refine ⟨?_, by unfold appendBlk; rw [hself]; rfl⟩
+    unfold DB.link appendBlk; rw [hself]; exact hpar
+  have hnot : (appendBlk s.db b).libRef.id ∉ ids ++ [b.id] := by
+    show s.db.libRef.id ∉ ids ++ [b.id]
+    simp only [List.mem_append, List.mem_singleton, not_or]
+    exact ⟨hn, fun h => hbl h.symm⟩
+  have hchain : ∃ c cs, computeLongestChain cfg { s with db := appendBlk s.db b } b = some (c :: cs) := by
+    rcases computeLongestChain_cases cfg { s with db := appendBlk s.db b } b with ⟨c, cs, _, _, _, hres⟩ | hres
+    · exact ⟨c, cs ++ [⟨b, false⟩], by rw [hres]; rfl⟩
+    · rw [hres]
+      obtain ⟨l, h1, h2⟩ := reversibleSegment_complete (appendBlk s.db b) (heights_append s.db b hI.heights hb hB)
+        (by intro i n hin hid; exact hinit i n hin hid) cfg.fsb (ids ++ [b.id]) hpath hnot b.ref
+        (by simp [Blk.ref]) (by
+          show b.num = (appendBlk s.db b).numOf b.id
+          rw [numOf_of_find _ _ _ (show (appendBlk s.db b).find b.id = some ⟨b, false⟩ from hself)])
+      show ∃ c cs, ((appendBlk s.db b).reversibleSegment cfg.fsb b.ref).1 = some (c :: cs)
+      rw [h1]
+      cases l with
+      | nil => simp at h2
+      | cons c cs => exact ⟨c, cs, rfl⟩
+  obtain ⟨htip, hlib⟩ := hmv hfresh hnb htr hchain
+  refine ⟨htip, ?_⟩
+  intro x ex hxin hfx hexn
+  have hxb : x ≠ b.id := by intro hc; rw [hc, hfresh] at hfx; cases hfx
+  exact hlib hinit (ids ++ [b.id]) x ex hpath hnot (by simp) (by simp [hxin]) hxb
+    (by unfold appendBlk; rw [find_append_other s.db b x hxb]; exact hfx) hexn
+
 theorem tip_moves_when_linked (cfg : Config) (hnew : cfg.matches .new = true) (hundo : cfg.matches .undo = true)
     (hirr : cfg.matches .irreversible = true) (s : FState) (P : List Id) (b : Blk)
     (hI : Inv s P) (hok : Props.C01.StepOK s b) (hinit : InitNumOK s.db)
     (hfresh : s.db.find b.id = none) (hnb : ¬ (b.num < s.db.libRef.num ∧ s.lastSent.isSome = true))
     (ids : List Id) (hp : IsPath s.db s.db.libRef.id ids) (hn : s.db.libRef.id ∉ ids)
     (hpar : b.parent = topOf s.db.libRef.id ids) (htr : triggers cfg s b = true) :
-    ∃ l, (processBlock cfg s b none).1.lastSent = some l ∧ l.ref = b.ref := by
-  obtain ⟨_, _, _, _, _, _, hmv⟩ :=
-    processBlock_step cfg hnew hundo hirr s P b hI hok.1 hok.2.1 hok.2.2.1 hok.2.2.2.1 hok.2.2.2.2
-  have hb := hok.2.2.1
-  have hB := hok.2.2.2.1
-  apply hmv hfresh hnb htr
-  rcases computeLongestChain_cases cfg { s with db := appendBlk s.db b } b with ⟨c, cs, _, _, _, hres⟩ | hres
-  · exact ⟨c, cs ++ [⟨b, false⟩], by rw [hres]; rfl⟩
-  · rw [hres]
-    have hself := find_append_self s.db b hfresh
-    -- the new block is not the LIB: it would sit at the LIB's height while resting on a descendant of the LIB
-    have hbl : b.id ≠ s.db.libRef.id := by
-      intro hlb
-      have h3 := hB.2.2.2 hlb
-      rcases List.eq_nil_or_concat ids with hnil | ⟨ids0, x, hx⟩
-      · subst hnil
-        have := hB.2.2.1 (by simpa using hpar)
-        omega
-      · rw [List.concat_eq_append] at hx
-        subst hx
-        simp only [topOf_append_singleton] at hpar
-        cases hfx : s.db.find x with
-        | none =>
-          have := isPath_present s.db _ _ hp x (by simp)
-          rw [hfx] at this; cases this
-        | some ep =>
-          have h1 := heights_path s.db hI.heights _ s.db.libRef.num _ hp hI.heights.2.1 x (by simp) ep hfx
-          have h2 := hB.1 ep (find_mem _ _ _ hfx) (by rw [hpar, find_id _ _ _ hfx])
-          omega
-    have hpath : IsPath (appendBlk s.db b) (appendBlk s.db b).libRef.id (ids ++ [b.id]) := by
-      show IsPath (appendBlk s.db b) s.db.libRef.id (ids ++ [b.id])
-      rw [isPath_append]
-      refine ⟨isPath_append_entry s.db b _ _ hp hfresh, ?_⟩
-      simp only [IsPath, and_true]
-      refine ⟨?_, by unfold appendBlk; rw [hself]; rfl⟩
-      unfold DB.link appendBlk; rw [hself]; exact hpar
-    have hnot : (appendBlk s.db b).libRef.id ∉ ids ++ [b.id] := by
-      show s.db.libRef.id ∉ ids ++ [b.id]
-      simp only [List.mem_append, List.mem_singleton, not_or]
-      exact ⟨hn, fun h => hbl h.symm⟩
-    obtain ⟨l, h1, h2⟩ := reversibleSegment_complete (appendBlk s.db b) (heights_append s.db b hI.heights hb hB)
-      (by intro i n hin hid; exact hinit i n hin hid) cfg.fsb (ids ++ [b.id]) hpath hnot b.ref
-      (by simp [Blk.ref]) (by
-        show b.num = (appendBlk s.db b).numOf b.id
-        rw [numOf_of_find _ _ _ (show (appendBlk s.db b).find b.id = some ⟨b, false⟩ from hself)])
-    show ∃ c cs, ((appendBlk s.db b).reversibleSegment cfg.fsb b.ref).1 = some (c :: cs)
-    rw [h1]
-    cases l with
-    | nil => simp at h2
-    | cons c cs => exact ⟨c, cs, rfl⟩
+    ∃ l, (processBlock cfg s b none).1.lastSent = some l ∧ l.ref = b.ref :=
+  (linked_block_step cfg hnew hundo hirr s P b hI hok hinit hfresh hnb ids hp hn hpar htr).1
+
+/-- **whenever the tip moves, the LIB becomes the tip's ancestor at the tip's declared LIB number, if that ancestor has
+    been received and lies above the current LIB** (it is then one of the blocks `ids` between the LIB and the new tip) -/
+theorem lib_moves_to_declared_ancestor (cfg : Config) (hnew : cfg.matches .new = true) (hundo : cfg.matches .undo = true)
+    (hirr : cfg.matches .irreversible = true) (s : FState) (P : List Id) (b : Blk)
+    (hI : Inv s P) (hok : Props.C01.StepOK s b) (hinit : InitNumOK s.db)
+    (hfresh : s.db.find b.id = none) (hnb : ¬ (b.num < s.db.libRef.num ∧ s.lastSent.isSome = true))
+    (ids : List Id) (hp : IsPath s.db s.db.libRef.id ids) (hn : s.db.libRef.id ∉ ids)
+    (hpar : b.parent = topOf s.db.libRef.id ids) (htr : triggers cfg s b = true)
+    (x : Id) (ex : Entry) (hx : x ∈ ids) (hfx : s.db.find x = some ex) (hnum : ex.blk.num = b.lib) :
+    (processBlock cfg s b none).1.db.libRef = ⟨x, b.lib⟩ :=
+  (linked_block_step cfg hnew hundo hirr s P b hI hok hinit hfresh hnb ids hp hn hpar htr).2 x ex hx hfx hnum
 
 /-- the forkable's initial buffer satisfies `InitNumOK` -/
 theorem initNumOK_init (cfg : Config) : InitNumOK (init cfg).db := by
@@ -207,11 +238,12 @@ theorem history_invariants_initNum (cfg : Config) (hnew : cfg.matches .new = tru
             · exact Or.inr (by rw [hsame]; exact h)
             · exact Or.inr hsome) hi1
 
-/-- **the head is followed, along every history** (hypotheses on the input only: blocks of one consistent block tree in
-    any order, LIB declarations naming ancestors): after any prefix `pre` of the history, a block `b` that is new to
-    the stream, not below the LIB, whose parent is the top of a path of received blocks resting on the LIB, and that
-    triggers (higher than the tip, or any height in all-blocks-trigger mode) becomes the tip -/
-theorem history_tip_follows (cfg : Config) (hnew : cfg.matches .new = true) (hundo : cfg.matches .undo = true)
+/-- **the head and the declared finality are followed, along every history** (hypotheses on the input only: blocks of
+    one consistent block tree in any order, LIB declarations naming ancestors): after any prefix `pre` of the history,
+    a block `b` that is new to the stream, not below the LIB, whose parent is the top of a path `ids` of received blocks
+    resting on the LIB, and that triggers (higher than the tip, or any height in all-blocks-trigger mode) becomes the
+    tip; and if one of the blocks of `ids` has the LIB number `b` declares, the LIB moves to it -/
+theorem history_head_and_lib_follow (cfg : Config) (hnew : cfg.matches .new = true) (hundo : cfg.matches .undo = true)
     (hirr : cfg.matches .irreversible = true) (U : Id → Option Blk) (hU : UOK U) (pre : List Blk) (b : Blk)
     (F : List Id) (s0 : FState) (P0 : List Id) (hI : Inv s0 P0) (hJ : Inv2 U F s0.db)
     (hin : ∀ x ∈ pre ++ [b], U x.id = some x) (hL : Props.C01.LibHistOK cfg s0 (pre ++ [b]))
@@ -222,7 +254,9 @@ theorem history_tip_follows (cfg : Config) (hnew : cfg.matches .new = true) (hun
     (hn : (runHistory cfg s0 pre).1.db.libRef.id ∉ ids)
     (hpar : b.parent = topOf (runHistory cfg s0 pre).1.db.libRef.id ids)
     (htr : triggers cfg (runHistory cfg s0 pre).1 b = true) :
-    ∃ l, (runHistory cfg s0 (pre ++ [b])).1.lastSent = some l ∧ l.ref = b.ref := by
+    (∃ l, (runHistory cfg s0 (pre ++ [b])).1.lastSent = some l ∧ l.ref = b.ref) ∧
+    (∀ x ex, x ∈ ids → (runHistory cfg s0 pre).1.db.find x = some ex → ex.blk.num = b.lib →
+      (runHistory cfg s0 (pre ++ [b])).1.db.libRef = ⟨x, b.lib⟩) := by
   obtain ⟨hLpre, hLb⟩ := libHistOK_append cfg s0 pre b hL
   obtain ⟨P1, F1, hI1, hJ1, hi1, hincl1⟩ := history_invariants_initNum cfg hnew hundo hirr U hU pre F s0 P0 hI hJ
     (fun x hx => hin x (by simp [hx])) hLpre hincl hi
@@ -234,12 +268,27 @@ theorem history_tip_follows (cfg : Config) (hnew : cfg.matches .new = true) (hun
     · exact Or.inr (Or.inl h)
   have hok : Props.C01.StepOK (runHistory cfg s0 pre).1 b :=
     ⟨hni, sentClosed_of_inv2 U F1 _ hI1.wf hI1.heights hJ1, hU.wf b.id b hbU, hb_of_inv2 U hU F1 _ hJ1 b hbU, hLb⟩
-  have := tip_moves_when_linked cfg hnew hundo hirr _ P1 b hI1 hok hi1 hfresh hnb ids hp hn hpar htr
+  have := linked_block_step cfg hnew hundo hirr _ P1 b hI1 hok hi1 hfresh hnb ids hp hn hpar htr
   have hsplit : (runHistory cfg s0 (pre ++ [b])).1 = (processBlock cfg (runHistory cfg s0 pre).1 b none).1 := by
     unfold runHistory
     rw [List.foldl_append]
     rfl
   rw [hsplit]; exact this
+
+/-- the tip half of `history_head_and_lib_follow` -/
+theorem history_tip_follows (cfg : Config) (hnew : cfg.matches .new = true) (hundo : cfg.matches .undo = true)
+    (hirr : cfg.matches .irreversible = true) (U : Id → Option Blk) (hU : UOK U) (pre : List Blk) (b : Blk)
+    (F : List Id) (s0 : FState) (P0 : List Id) (hI : Inv s0 P0) (hJ : Inv2 U F s0.db)
+    (hin : ∀ x ∈ pre ++ [b], U x.id = some x) (hL : Props.C01.LibHistOK cfg s0 (pre ++ [b]))
+    (hincl : s0.includeInit = false ∨ s0.lastSent.isSome = true) (hi : InitNumOK s0.db)
+    (hfresh : (runHistory cfg s0 pre).1.db.find b.id = none)
+    (hnb : ¬ (b.num < (runHistory cfg s0 pre).1.db.libRef.num ∧ (runHistory cfg s0 pre).1.lastSent.isSome = true))
+    (ids : List Id) (hp : IsPath (runHistory cfg s0 pre).1.db (runHistory cfg s0 pre).1.db.libRef.id ids)
+    (hn : (runHistory cfg s0 pre).1.db.libRef.id ∉ ids)
+    (hpar : b.parent = topOf (runHistory cfg s0 pre).1.db.libRef.id ids)
+    (htr : triggers cfg (runHistory cfg s0 pre).1 b = true) :
+    ∃ l, (runHistory cfg s0 (pre ++ [b])).1.lastSent = some l ∧ l.ref = b.ref :=
+  (history_head_and_lib_follow cfg hnew hundo hirr U hU pre b F s0 P0 hI hJ hin hL hincl hi hfresh hnb ids hp hn hpar htr).1
 
 /-! ### outputs do not depend on re-fed or below-LIB blocks -/
 
@@ -284,5 +333,34 @@ example : Thinned cfgN (init cfgN) [a2, a3, a3, a4, a5, z1] [a2, a3, a4, a5] := 
   apply Thinned.keep; apply Thinned.keep
   apply Thinned.drop _ _ _ _ (Or.inl ⟨by decide, by decide⟩)
   exact Thinned.nil _
+
+private def uN : List Blk := [a2, a3, a4, a5]
+
+/-- non-vacuity of `history_head_and_lib_follow`: after a2, a3, a4 (LIB at a2) the block a5, which declares LIB 3,
+    becomes the tip and moves the LIB to a3 — every hypothesis discharged by kernel evaluation -/
+example : (∃ l, (runHistory cfgN (init cfgN) ([a2, a3, a4] ++ [a5])).1.lastSent = some l ∧ l.ref = a5.ref) ∧
+    (runHistory cfgN (init cfgN) ([a2, a3, a4] ++ [a5])).1.db.libRef = ⟨"a3", 3⟩ := by
+  have hU : UOK (ofList uN) := uokB_sound uN (by decide)
+  have hI := Props.C01.init_inv cfgN ⟨"r", 1⟩ (by decide) rfl
+  have hJ : Inv2 (ofList uN) ["r"] (init cfgN).db := by
+    apply Props.C01.init_inv2 cfgN ⟨"r", 1⟩ rfl
+    · intro b hb hp
+      have hm := (ofList_mem uN _ b hb).1
+      have : ∀ x ∈ uN, x.parent = "r" → 1 < x.num := by decide
+      exact this b hm hp
+    · intro b hb hid
+      have hm := (ofList_mem uN _ b hb).1
+      have : ∀ x ∈ uN, x.id = "r" → x.num = 1 := by decide
+      exact this b hm hid
+  have hin : ∀ b ∈ [a2, a3, a4] ++ [a5], ofList uN b.id = some b := by
+    intro b hb
+    apply ofList_of_mem uN (by decide)
+    have : ∀ x ∈ [a2, a3, a4] ++ [a5], x ∈ uN := by decide
+    exact this b hb
+  have h := history_head_and_lib_follow cfgN (by decide) (by decide) (by decide) (ofList uN) hU [a2, a3, a4] a5 ["r"]
+    (init cfgN) [] hI hJ hin (libHistB_sound cfgN _ _ (by decide)) (Or.inl rfl) (initNumOK_init cfgN)
+    (by decide) (by decide) ["a3", "a4"] ⟨by decide, by decide, by decide, by decide, trivial⟩ (by decide) (by decide)
+    (by decide)
+  exact ⟨h.1, h.2 "a3" ⟨a3, true⟩ (by decide) (by decide) rfl⟩
 
 end BstreamVerif.Props.C03
